@@ -36,6 +36,12 @@ def conditions():
         for e2 in AI[:2]:
             yield ("and", e1, e2)
             yield ("or", e2, e1)
+    # one condition in several positions: (p and c1) or (not p and c2), p and not p, ...
+    for p_ in (A2[0], A2[3], A2[11], A2[13]):        # comparisons, a membership test and two predicate calls
+        for c1, c2 in ((A2[1], A2[2]), (A2[2], A2[5] if len(A2) > 5 else A2[1])):
+            yield ("or", ("and", p_, c1), ("and", ("not", p_), c2))
+            yield ("or", ("and", ("not", p_), c1), ("and", p_, c2))
+            yield ("and", ("or", p_, c1), ("or", ("not", p_), c2))
     # quantified conditionals over u
     QA = [("cmp", "<", ("attr", "x", "a"), ("attr", "u", "a")), ("cmp", "==", ("attr", "x", "b"), ("attr", "u", "b")),
           ("contains", ("attr", "u", "items"), ("attr", "x", "a")), ("cmp", ">=", ("attr", "x", "a"), ("attr", "u", "a"))]
@@ -84,7 +90,7 @@ def selections(cond):
 def work(job):
     wi, cond, sel, share = job
     domains = G.worlds()[wi]
-    env = G.Env(domains, share_attrs=share)
+    env = G.Env(domains, share_attrs=(share is True), share_conds=(share == "conds"))
     st, got = guarded(lambda: G.run_query(env, sel, cond))
     want = G.oracle_rows(sel, cond, domains)
     return wi, cond, sel, share, st, (repr(got) if st == "exc" else got), want
@@ -97,10 +103,12 @@ for wi in range(4):
             jobs.append((wi, cond, sel, False))
             if cond is not None and cond[0] in ("and", "or", "not"):
                 jobs.append((wi, cond, sel, True))
+                if len(repr(cond)) != len(repr(cond).replace("'not'", "")) and cond[0] in ("and", "or") and cond[1][0] in ("and", "or"):
+                    jobs.append((wi, cond, sel, "conds"))
 seen = set()
 with multiprocessing.get_context("fork").Pool(16) as pool:
     for wi, cond, sel, share, st, got, want in pool.imap_unordered(work, jobs, chunksize=32):
-        sig_shape = (G.shape_signature(cond) if cond else "no-condition") + ("#shared-attribute-nodes" if share else "")
+        sig_shape = (G.shape_signature(cond) if cond else "no-condition") + ("#shared-condition-nodes" if share == "conds" else "#shared-attribute-nodes" if share else "")
         selk = "+".join(s[0] for s in sel)
         rep.case((wi, repr(cond), sel, share), nontrivial=bool(want), sample={"world": wi, "condition": repr(cond), "selected": sel})
         inp = {"world": wi, "condition": cond, "selected": sel, "shared_attribute_nodes": share}
